@@ -301,6 +301,10 @@ class Printer:
             if rd['kind'] == 'EnumConstantDecl':
                 self.fire('expr:enum-constant')
                 return self.enum_value(rd, n)
+            if self.unit.get('abstract') and rd['kind'] == 'ParmVarDecl':
+                # scalar parameter of an abstracted function: a ghost global gh_p_<name> (declared in the unit prelude, havocked by the harness)
+                self.fire('abs:scalar-parameter-as-ghost')
+                return 'gh_p_' + nm
             if self.fragment and rd['id'] not in self.local_ids and rd['kind'] in ('VarDecl', 'ParmVarDecl'):
                 if rd['id'] not in self.freevars:
                     q = rd['type']['qualType']
@@ -708,6 +712,14 @@ class Printer:
             self.called[fn] += 1
             self.fire('call:std-sort')
             return '%s(&%s)' % (fn, self.e(vb))
+        if nm in ('max', 'min') and len(args) == 0:
+            ct = self.ctype_of(n)
+            lim = {'uint8_t': ('0', '255'), 'uint16_t': ('0', '65535'), 'uint32_t': ('0u', '4294967295u'), 'uint64_t': ('0ull', '18446744073709551615ull'),
+                   'size_t': ('0ull', '18446744073709551615ull'), 'int': ('(-2147483647 - 1)', '2147483647'), 'int16_t': ('-32768', '32767')}
+            if ct in lim:
+                self.fire('call:numeric-limits')
+                return '((%s)%s)' % (ct, lim[ct][1 if nm == 'max' else 0])
+            self.brk('numeric_limits<%s>' % ct, n)
         if nm in ('max', 'min') and len(args) == 2:
             a, b = self.skip(args[0]), self.skip(args[1])
             if has_side_effect(a) or has_side_effect(b):
@@ -928,6 +940,112 @@ class Printer:
         self.fire('stmt:expr')
         return t + self.e(n) + ';\n'
 
+    # ------------------------------------------------------------------ abstracting rendering (guard/frame units only)
+    def root_object(self, n):
+        """the variable an expression statement operates on (call object / assignment target), or None"""
+        n = self.skip(n)
+        k = n.get('kind')
+        I = n.get('inner', []) or []
+        if k in ('CXXMemberCallExpr',) and I and I[0].get('kind') == 'MemberExpr':
+            return self.root_object(I[0]['inner'][0])
+        if k in ('BinaryOperator', 'CompoundAssignOperator') and n.get('opcode', '').endswith('='):
+            return self.root_object(I[0])
+        if k in ('CXXOperatorCallExpr',) and len(I) >= 2:
+            return self.root_object(I[1])
+        if k in ('MemberExpr', 'ImplicitCastExpr', 'ParenExpr', 'ArraySubscriptExpr', 'UnaryOperator') and I:
+            return self.root_object(I[0])
+        if k == 'DeclRefExpr':
+            return n.get('referencedDecl', {})
+        if k == 'CXXThisExpr':
+            return {'kind': 'this'}
+        return None
+
+    def st_abs(self, n, ind):
+        """control flow is kept; anything the table cannot render becomes TOUCH() (may modify the model) unless it provably
+        operates on a local variable only; conditions that cannot be rendered become nondeterministic"""
+        k = n.get('kind')
+        I = n.get('inner', []) or []
+        t = '\t' * ind
+
+        def cond(c):
+            try:
+                for x in walk(c):
+                    if x.get('kind') == 'DeclRefExpr' and x.get('referencedDecl', {}).get('kind') in ('VarDecl', 'BindingDecl'):
+                        raise ExtractionBreak('condition over a local')
+                    if x.get('kind') == 'DeclRefExpr' and x.get('referencedDecl', {}).get('kind') == 'ParmVarDecl' and \
+                            Types.strip(x['referencedDecl'].get('type', {}).get('qualType', '')) not in SCALARS:
+                        raise ExtractionBreak('condition over a non-scalar parameter')
+                    if x.get('kind') in ('CallExpr', 'CXXMemberCallExpr', 'CXXOperatorCallExpr'):
+                        raise ExtractionBreak('condition with a call')
+                return self.e(c)
+            except ExtractionBreak:
+                # partial rendering of && / ||
+                cc = self.skip(c)
+                while cc.get('kind') in ('ImplicitCastExpr', 'ParenExpr') and cc.get('inner'):
+                    cc = cc['inner'][0]
+                if cc.get('kind') == 'BinaryOperator' and cc.get('opcode') in ('&&', '||'):
+                    return '(%s %s %s)' % (cond(cc['inner'][0]), cc['opcode'], cond(cc['inner'][1]))
+                if cc.get('kind') == 'UnaryOperator' and cc.get('opcode') == '!':
+                    return '(!%s)' % cond(cc['inner'][0])
+                self.fire('abs:nondet-condition')
+                return 'nondet_bool()'
+        if k == 'CompoundStmt':
+            return t + '{\n' + ''.join(self.st_abs(c, ind + 1) for c in I) + t + '}\n'
+        if k == 'IfStmt':
+            r = t + 'if (%s)\n' % cond(I[0]) + t + '{\n' + self.st_abs(I[1], ind + 1) + t + '}\n'
+            if len(I) > 2:
+                r += t + 'else\n' + t + '{\n' + self.st_abs(I[2], ind + 1) + t + '}\n'
+            return r
+        if k == 'ReturnStmt':
+            self.fire('abs:return')
+            return t + 'return;\n'
+        allow = set(self.unit.get('allow_calls', []))
+
+        def risky_calls(x):
+            """calls inside x that are neither on a local object nor whitelisted"""
+            out = []
+            for c in walk(x):
+                if c.get('kind') in ('CXXMemberCallExpr', 'CallExpr'):
+                    f = self.callee_decl(c['inner'][0]) if c.get('inner') else {}
+                    nm = f.get('name') or f.get('referencedDecl', {}).get('name')
+                    if nm in allow or nm in ('move', 'forward', 'max', 'min'):
+                        continue
+                    ro_ = self.root_object(c)
+                    if ro_ and ro_.get('kind') in ('VarDecl', 'ParmVarDecl') and ro_.get('id') in self.local_ids:
+                        continue
+                    out.append(nm)
+            return out
+        if k == 'DeclStmt':
+            for v in I:
+                if v.get('kind') == 'VarDecl':
+                    self.local_ids.add(v['id'])
+            rc = risky_calls(n)
+            if rc:
+                self.fire('abs:touch-in-initialiser')
+                return t + 'TOUCH(); /* initialiser calls %s */\n' % ', '.join(str(x) for x in rc)
+            self.fire('abs:local-decl')
+            return t + '/* local declaration */;\n'
+        if k in ('ForStmt', 'WhileStmt', 'CXXForRangeStmt', 'DoStmt'):
+            # a loop runs its body zero or more times: for a frame obligation one optional execution is enough
+            body = I[-1]
+            for x in walk(n):
+                if x.get('kind') == 'VarDecl':
+                    self.local_ids.add(x['id'])
+            self.fire('abs:loop-as-optional-body')
+            return t + 'if (nondet_bool())\n' + t + '{\n' + self.st_abs(body, ind + 1) + t + '}\n'
+        if k in ('BreakStmt', 'ContinueStmt', 'NullStmt'):
+            return t + ';\n'
+        ro = self.root_object(n)
+        if ro and ro.get('kind') in ('VarDecl', 'ParmVarDecl') and ro.get('id') in self.local_ids and not risky_calls(n):
+            self.fire('abs:local-only-statement')
+            return t + '/* operates on a local variable */;\n'
+        nn = self.skip(n)
+        if nn.get('kind') in ('CXXMemberCallExpr', 'CallExpr') and not risky_calls(n):
+            self.fire('abs:whitelisted-call')
+            return t + '/* whitelisted call */;\n'
+        self.fire('abs:touch')
+        return t + 'TOUCH();\n'
+
     def block(self, n, ind):
         if n.get('kind') == 'CompoundStmt':
             return self.st(n, ind)
@@ -1072,6 +1190,9 @@ def render_function(unit, docs, types):
             raise ExtractionBreak('method %s needs a self struct name' % cname)
         params.append('%s *self' % selfname)
     for c in fn.get('inner', []):
+        if c.get('kind') == 'ParmVarDecl' and unit.get('abstract'):
+            p.local_ids.add(c['id'])
+            continue
         if c.get('kind') == 'ParmVarDecl':
             q = c['type']['qualType']
             d = c['type'].get('desugaredQualType')
@@ -1096,7 +1217,7 @@ def render_function(unit, docs, types):
     # return type
     rq = fn['type']['qualType'].split('(')[0].strip()
     ret = 'void'
-    if rq != 'void':
+    if rq != 'void' and not unit.get('abstract'):
         if types.is_vec(rq):
             p.ret_vec = types.c(rq)
             params.append('%s *ret' % p.ret_vec)
@@ -1104,7 +1225,12 @@ def render_function(unit, docs, types):
         else:
             ret = types.c(rq)
     body = [c for c in fn['inner'] if c.get('kind') == 'CompoundStmt'][0]
-    btxt = p.st(body, 0)
+    if unit.get('abstract'):
+        btxt = p.st_abs(body, 0)
+        ret = 'void'
+        params = params[:1] if is_method else []
+    else:
+        btxt = p.st(body, 0)
     sig = '%s %s(%s)' % (ret, cname, ', '.join(params) if params else 'void')
     return {'sig': sig, 'body': btxt, 'printer': p, 'ret': ret, 'params': params,
             'line': fn.get('loc', {}).get('line') or fn.get('range', {}).get('begin', {}).get('line'),
